@@ -6,6 +6,9 @@ import GrinVerif.Lemmas.SegPeaks
 import GrinVerif.Lemmas.SegLeafless
 import GrinVerif.Lemmas.SegAncestor
 import GrinVerif.Lemmas.SegDsg
+import GrinVerif.Lemmas.SegCompleteList
+import GrinVerif.Lemmas.SegHashExtra
+import GrinVerif.Lemmas.SegPrunedList
 /-! # C16 — state segments are sound; state sync never finalises other roots
 
 Property theorems only (helper lemmas live in `Lemmas/Seg*.lean`; model `Model/Seg.lean`).
@@ -384,10 +387,10 @@ theorem tampered_segment_rejected (hf : HashFn α H) [DecidableEq H] (inj : Inj 
 
 /-- **Soundness for any identifier whose range is a well-formed post-order range**
 (`WellFormedRange`: the loop of `root` leaves exactly the entries the end of `root` consumes —
-a fact about `(id, size)` alone, proven for full segments by `wellFormed_full`).
-Full statement intended: for *every* identifier with a non-empty range, i.e. also the final,
-not full segment.  Missing for that: the decomposition of the final range `[first, size-1]` into
-the subtrees of the peaks it contains (peaks arithmetic).  Named gap: `final_segment_range`. -/
+a fact about `(id, size)` alone).  The general form behind `segment_sound` (full segments, any
+size) and `segment_sound_any_id` (every identifier that intersects an MMR of valid size, the final
+not full segment included: `segment_well_formed`).  The name is historical: nothing is partial
+here any more, the former gap `final_segment_range` is closed by `final_segment_well_formed`. -/
 theorem segment_sound_partial (hf : HashFn α H) [DecidableEq H] (inj : Inj hf) (s1 s2 : Segment α H)
     (hid : s1.id = s2.id) (size : Nat) (bm : Option (Nat → Bool)) (wf : WellFormedRange s1.id size)
     (mmrRoot r1 : H) (hroot : s1.root hf size bm = .ok (some r1))
@@ -395,6 +398,83 @@ theorem segment_sound_partial (hf : HashFn α H) [DecidableEq H] (inj : Inj hf) 
     segReads hf s1 size bm = segReads hf s2 size bm ∧
     s1.proof.take (proofLen s1.id size) = s2.proof.take (proofLen s1.id size) :=
   validate_inj hf inj s1 s2 hid size bm wf mmrRoot r1 hroot h1 h2
+
+/-! ### The final, not full segment (former named gap `final_segment_range`)
+
+`FinalId id N`: `height < 64`, `idx·2^height < N < (idx+1)·2^height`, `N < 2^62` — the last segment
+of an MMR with `N` leaves whenever `2^height ∤ N`.  `FitId id N`: `height < 64`, `idx·2^height < N`,
+`N < 2^62` — every identifier whose range intersects the MMR (full or final). -/
+
+/-- The identifier arithmetic of the final segment is exact: it is not full, its range is
+`[insertion_to_pmmr_index(idx·2^height), size − 1]`, and that range is tiled, in post-order, by the
+subtrees of the peaks of the MMR that lie inside it (`tiles` of the low part of the forest), which
+are exactly the peaks `Segment::root` bags (`peaksIn`, right to left). -/
+theorem final_segment_range (id : Ident) (N : Nat) (v : FinalId id N) :
+    id.full (mmr N) = false ∧
+    id.posRange (mmr N) = (mmr (id.idx * 2 ^ id.height), mmr N - 1) ∧
+    id.positions (mmr N) =
+      tiles (Co.forestFrom id.height (id.idx * 2 ^ id.height) (finalLeaves id N)) ∧
+    id.peaksIn (mmr N) =
+      ((Co.forestFrom id.height (id.idx * 2 ^ id.height) (finalLeaves id N)).map Co.cpos).reverse ∧
+    (∃ Lh, Co.forest N = Lh ++ Co.forestFrom id.height (id.idx * 2 ^ id.height) (finalLeaves id N)) :=
+  ⟨(final_arith id N v).2.2.2.1, (final_arith id N v).2.2.2.2, final_positions id N v,
+    final_peaksIn id N v, (final_forest id N v).imp fun _ h => h.1⟩
+
+/-- **final_segment_well_formed.**  The last, not full segment of every MMR size: the loop of
+`Segment::root` never runs the stack empty and leaves exactly one entry per peak inside the range —
+what the bagging loop at the end consumes. -/
+theorem final_segment_well_formed (id : Ident) (N : Nat) (v : FinalId id N) :
+    WellFormedRange id (mmr N) := wellFormed_final id N v
+
+/-- … hence every identifier whose range intersects the MMR has a well-formed range. -/
+theorem segment_well_formed (id : Ident) (N : Nat) (v : FitId id N) :
+    WellFormedRange id (mmr N) := wellFormed_fit id N v
+
+/-- **Segment soundness for every identifier that intersects the MMR** (full segments and the
+final, not full one; no hypothesis about the range any more).  `N` = number of leaves of the MMR,
+`mmr N` its size.  If a segment `s1` that has a root of its own and any other segment `s2` with
+the same identifier are both accepted, they agree on every leaf (position and data) and every hash
+(position and value) the reconstruction reads and on every proof hash it consumes. -/
+theorem segment_sound_any_id (hf : HashFn α H) [DecidableEq H] (inj : Inj hf) (s1 s2 : Segment α H)
+    (hid : s1.id = s2.id) (N : Nat) (bm : Option (Nat → Bool)) (v : FitId s1.id N)
+    (mmrRoot r1 : H) (hroot : s1.root hf (mmr N) bm = .ok (some r1))
+    (h1 : s1.validate hf (mmr N) bm mmrRoot = .ok ()) (h2 : s2.validate hf (mmr N) bm mmrRoot = .ok ()) :
+    segReads hf s1 (mmr N) bm = segReads hf s2 (mmr N) bm ∧
+    s1.proof.take (proofLen s1.id (mmr N)) = s2.proof.take (proofLen s1.id (mmr N)) :=
+  validate_inj hf inj s1 s2 hid (mmr N) bm (wellFormed_fit s1.id N v) mmrRoot r1 hroot h1 h2
+
+theorem segment_sound_with_any_id (hf : HashFn α H) [DecidableEq H] (inj : Inj hf) (s1 s2 : Segment α H)
+    (hid : s1.id = s2.id) (N : Nat) (bm : Option (Nat → Bool)) (v : FitId s1.id N)
+    (mmrRoot r1 : H) (hlp : Nat) (other : H) (left : Bool)
+    (hroot : s1.root hf (mmr N) bm = .ok (some r1))
+    (h1 : s1.validateWith hf (mmr N) bm mmrRoot hlp other left = .ok ())
+    (h2 : s2.validateWith hf (mmr N) bm mmrRoot hlp other left = .ok ()) :
+    segReads hf s1 (mmr N) bm = segReads hf s2 (mmr N) bm ∧
+    s1.proof.take (proofLen s1.id (mmr N)) = s2.proof.take (proofLen s1.id (mmr N)) :=
+  validateWith_inj hf inj s1 s2 hid (mmr N) bm (wellFormed_fit s1.id N v) mmrRoot r1 hlp other left
+    hroot h1 h2
+
+/-- contrapositive for every identifier that intersects the MMR -/
+theorem tampered_segment_rejected_any_id (hf : HashFn α H) [DecidableEq H] (inj : Inj hf)
+    (s1 s2 : Segment α H) (hid : s1.id = s2.id) (N : Nat) (bm : Option (Nat → Bool))
+    (v : FitId s1.id N) (mmrRoot r1 : H) (hroot : s1.root hf (mmr N) bm = .ok (some r1))
+    (h1 : s1.validate hf (mmr N) bm mmrRoot = .ok ())
+    (hdiff : segReads hf s1 (mmr N) bm ≠ segReads hf s2 (mmr N) bm ∨
+      s1.proof.take (proofLen s1.id (mmr N)) ≠ s2.proof.take (proofLen s1.id (mmr N))) :
+    s2.validate hf (mmr N) bm mmrRoot ≠ .ok () := by
+  intro h2
+  obtain ⟨a, b⟩ := segment_sound_any_id hf inj s1 s2 hid N bm v mmrRoot r1 hroot h1 h2
+  rcases hdiff with h | h
+  · exact h a
+  · exact h b
+
+-- non-vacuity: the 11-leaf MMR (size 19): (height 2, idx 2) is its final segment (leaves 8..10,
+-- peaks 17 and 18 inside), (height 1, idx 5) the final one-leaf segment, (height 1, idx 2) and
+-- (height 2, idx 1) are full
+example : FinalId ⟨2, 2⟩ 11 ∧ FinalId ⟨1, 5⟩ 11 ∧ FitId ⟨2, 2⟩ 11 ∧ FitId ⟨1, 2⟩ 11 ∧ FitId ⟨2, 1⟩ 11 :=
+  ⟨⟨by decide, by decide, by decide, by decide⟩, ⟨by decide, by decide, by decide, by decide⟩,
+    ⟨by decide, by decide, by decide⟩, ⟨by decide, by decide, by decide⟩,
+    ⟨by decide, by decide, by decide⟩⟩
 
 /-- Completely pruned segments carry one hash, their first unpruned parent.  If two accepted
 ones carry it at the same position, the hash and the consumed proof hashes are equal.
@@ -446,30 +526,253 @@ theorem redundant_proof_hashes_not_rejected (hf : HashFn α H) [DecidableEq H] (
     Segment.validate hf { s with proof := s.proof ++ extra } size bm mmrRoot = .ok () :=
   validate_extra_proof_hashes hf s extra size bm mmrRoot h
 
-/-! ## Completeness
+/-- **Redundant extra hash entries are not rejected** (the caveat of the property text, for all
+segments).  Append any hash entries `(ep, eh)` to a segment (`get_hash` returns the first match,
+so an appended entry at a position the segment already holds is shadowed):
+* a successful `root` keeps its result — whatever is appended, at whatever positions;
+* `validate` stays `Ok` whenever the segment has a root of its own (leaf data present), with no
+  condition on the appended entries at all;
+* for a segment *without* a root of its own (completely pruned: `root = Ok(None)`), the only
+  computation in which a failed lookup is not an error, `validate` stays `Ok` provided every
+  appended position is already held by the segment or is neither the segment's last position nor
+  a parent on its family branch (the positions `first_unpruned_parent` asks for on its way up).
+(The side condition is needed: an arbitrary hash appended *at* the last position of a completely
+pruned segment that carries a higher parent is found first and changes the reconstructed root.) -/
+theorem redundant_hash_entries_not_rejected (hf : HashFn α H) [DecidableEq H] (s : Segment α H)
+    (ep : List Nat) (eh : List H) (hlen : s.hashPos.length = s.hashes.length) (size : Nat)
+    (bm : Option (Nat → Bool)) (mmrRoot : H)
+    (hnew : s.root hf size bm = .ok none → ∀ e ∈ ep, (∃ h, s.getHash e = .ok h) ∨
+      (e ≠ (s.id.posRange size).2 ∧ ∀ y ∈ familyBranch (s.id.posRange size).2 size, y.1 ≠ e)) :
+    (∀ o, s.root hf size bm = .ok o → (addHashes s ep eh).root hf size bm = .ok o) ∧
+    (s.validate hf size bm mmrRoot = .ok () →
+      (addHashes s ep eh).validate hf size bm mmrRoot = .ok ()) ∧
+    (∀ hlp other left, s.validateWith hf size bm mmrRoot hlp other left = .ok () →
+      (addHashes s ep eh).validateWith hf size bm mmrRoot hlp other left = .ok ()) := by
+  have ext := addHashes_ext s ep eh hlen
+  have hwalk : s.root hf size bm = .ok none →
+      ∀ q, q = (s.id.posRange size).2 ∨ (∃ y ∈ familyBranch (s.id.posRange size).2 size, y.1 = q) →
+        (addHashes s ep eh).getHash q = s.getHash q :=
+    fun hr => addHashes_walk s ep eh hlen _ size (hnew hr)
+  exact ⟨fun o ho => root_ext hf s _ ext size bm o ho,
+    fun h => validate_ext hf s _ ext rfl size bm mmrRoot hwalk h,
+    fun hlp other left h => validateWith_ext hf s _ ext rfl size bm mmrRoot hlp other left hwalk h⟩
 
-Full statement intended (`segment_complete`):
+/-- … in particular a segment with a root of its own (every segment that carries leaf data the
+bitmap requires; every kernel / bitmap segment) stays accepted whatever hash entries are added. -/
+theorem redundant_hash_entries_not_rejected_rooted (hf : HashFn α H) [DecidableEq H] (s : Segment α H)
+    (ep : List Nat) (eh : List H) (hlen : s.hashPos.length = s.hashes.length) (size : Nat)
+    (bm : Option (Nat → Bool)) (mmrRoot r : H) (hroot : s.root hf size bm = .ok (some r))
+    (h : s.validate hf size bm mmrRoot = .ok ()) :
+    (addHashes s ep eh).root hf size bm = .ok (some r) ∧
+    (addHashes s ep eh).validate hf size bm mmrRoot = .ok () := by
+  obtain ⟨h1, h2, _⟩ := redundant_hash_entries_not_rejected hf s ep eh hlen size bm mmrRoot
+    (fun hn => by rw [hroot] at hn; cases hn)
+  exact ⟨h1 _ hroot, h2 h⟩
 
-    theorem segment_complete (d : List α) (hs : List H) (hpush : pushAll hf [] d = some hs)
-        (r : H) (hroot : Pmmr.root hf hs = .ok r) (id : Ident)
-        (hne : id.unprunedSize hs.length ≠ 0) (hsmall : d.length < 2 ^ 62) (hh : id.height < 64) :
-        ∃ s, fromPmmr hf (vecView hs d) id false = .ok s ∧ s.validate hf hs.length none r = .ok ()
+-- non-vacuity: the honest final segment (height 2, idx 2) of the 11-leaf MMR with three arbitrary
+-- hash entries appended (inside the range, on the family branch, outside the MMR) is still accepted
+example : ∃ s r, fromPmmr (Co.termHF Nat)
+      (vecView (Spec.Mmr.hashes (Co.termHF Nat) [10, 11, 12, 13, 14, 15, 16, 17, 18, 19, 20])
+        [10, 11, 12, 13, 14, 15, 16, 17, 18, 19, 20]) ⟨2, 2⟩ false = .ok s ∧
+    Spec.Mmr.root (Co.termHF Nat) [10, 11, 12, 13, 14, 15, 16, 17, 18, 19, 20] = some r ∧
+    (addHashes s [16, 18, 40] [.leaf 0 0, .leaf 1 1, .leaf 2 2]).validate (Co.termHF Nat) (mmr 11) none r
+      = .ok () := by
+  obtain ⟨s, r, sr, h1, h2, _, _, hp, hh, _, hroot, _, hv, _⟩ :=
+    segment_complete_list (Co.termHF Nat) [10, 11, 12, 13, 14, 15, 16, 17, 18, 19, 20] ⟨2, 2⟩
+      ⟨by decide, by decide, by decide⟩
+  exact ⟨s, r, h1, h2, (redundant_hash_entries_not_rejected_rooted (Co.termHF Nat) s _ _
+    (by rw [hp, hh]; rfl) (mmr 11) none r sr hroot hv).2⟩
 
-(and its prunable variant over any view in which the data of every leaf the bitmap requires and
-the hash of every maximal pruned subtree are on file).  Not proven.  What is missing:
-(a) the node law of the hash vector `pushAll` builds (every parent is the hash of its children) —
-`pushLoop` invariant; (b) `fromPmmr` over `vecView` yields the leaf list `leavesOf …`;
-(c) the Merkle-path part: `reconstructRoot (generate …)` re-bags to `Pmmr.root` (family-branch and
-peaks arithmetic); (d) the final, not full segment.  Proven below: the segment-root part for
-full unpruned segments, relative to (a) as an explicit hypothesis.  Completeness is otherwise
-established by the correspondence run on the real code (every size ≤ 150/300 × heights 0..4 ×
-all indices × prune states: honest segment accepted). -/
+/-! ## Completeness (unpruned MMR, no bitmap: kernel and bitmap MMRs, and any unpruned source)
+
+The MMR is the hash vector of the defining construction, `Spec.Mmr.hashes hf xs` — by C07
+`push_root` exactly what pushing `xs` one by one onto an empty Vec backend builds; the node law
+(leaf hash = hash of the element, parent hash = hash of its children) is *discharged* from the
+`(n, h)` coordinates of C07 (`hAt_leafLaw`, `hAt_nodeLaw`), not assumed.  `vecView hashes xs` is
+the `ReadonlyPMMR` over that backend.  `expectedLeaves xs ps`: `(q, xs[j])` for every position `q`
+of `ps` that is the position of leaf `j`; `expectedSegRoot`: the committed hash at the last
+position of a full segment, the peaks inside the range bagged right to left otherwise. -/
+
+/-- **segment_complete.**  For every list of elements `xs`, every identifier `id` whose range
+intersects the MMR of `xs` (`height < 64`, first leaf `idx·2^height < |xs| < 2^62`: full segments
+*and* the final, not full one):
+* `from_pmmr(id, .., prunable = false)` succeeds; the segment carries no hashes and exactly the
+  expected leaf list;
+* its `root` is the hash of its subtree root, resp. the bagged peaks of the final segment;
+* its `SegmentProof` reconstructs the MMR root from that segment root, consuming every hash;
+* hence `validate(size, None, root)` is `Ok`, and so is `validate_with` against the root merged
+  with any other root on either side. -/
+theorem segment_complete (hf : HashFn α H) [DecidableEq H] (xs : List α) (id : Ident)
+    (fit : FitId id xs.length) :
+    ∃ s r sr, fromPmmr hf (vecView (Spec.Mmr.hashes hf xs) xs) id false = .ok s ∧
+      Spec.Mmr.root hf xs = some r ∧
+      expectedSegRoot hf (Spec.Mmr.hashes hf xs) id = some sr ∧
+      s.id = id ∧ s.hashPos = [] ∧ s.hashes = [] ∧
+      s.leafPos.zip s.leafData = expectedLeaves xs (id.positions (mmr xs.length)) ∧
+      s.root hf (mmr xs.length) none = .ok (some sr) ∧
+      reconstructRoot hf s.proof (mmr xs.length) (id.posRange (mmr xs.length)).1
+        (id.posRange (mmr xs.length)).2 sr (1 + (id.posRange (mmr xs.length)).2) = .ok (r, []) ∧
+      s.validate hf (mmr xs.length) none r = .ok () ∧
+      ∀ hlp other left, s.validateWith hf (mmr xs.length) none
+        (if left then hf.node hlp other r else hf.node hlp r other) hlp other left = .ok () :=
+  segment_complete_list hf xs id fit
+
+/-- the same on the state of the model of `PMMR::push` itself: `hs` is what pushing `xs` built,
+`r` what `root()` returns on it -/
+theorem segment_complete_pushed (hf : HashFn α H) [DecidableEq H] (xs : List α) (hs : List H)
+    (hpush : pushAll hf [] xs = some hs) (r : H) (hroot : Pmmr.root hf hs = .ok r) (id : Ident)
+    (fit : FitId id xs.length) :
+    ∃ s, fromPmmr hf (vecView hs xs) id false = .ok s ∧ s.validate hf hs.length none r = .ok () := by
+  have hb : xs.length ≤ 2 ^ 65 := by have := fit.small; omega
+  obtain ⟨h1, h2, _⟩ := GV.Props.C07.push_root hf xs hb
+  have hr := (GV.Props.C07.root_pushed hf xs hb hs hpush r).1 hroot
+  rw [h1] at hpush
+  injection hpush with hpush
+  subst hpush
+  obtain ⟨s, r', _, hfrom, hr', _, _, _, _, _, _, _, hv, _⟩ := segment_complete hf xs id fit
+  rw [hr] at hr'
+  injection hr' with hr'
+  subst hr'
+  exact ⟨s, hfrom, by rw [h2]; exact hv⟩
+
+/-- **Completeness + soundness**: against the root of the MMR of `xs`, every accepted segment with
+identifier `id` reads exactly what the honest segment reads — the leaves `expectedLeaves xs …` at
+their positions — and consumes the honest proof.  (No bitmap; collision-free hashes.) -/
+theorem accepted_segment_is_honest (hf : HashFn α H) [DecidableEq H] (inj : Inj hf) (xs : List α)
+    (id : Ident) (fit : FitId id xs.length) (s2 : Segment α H) (hid : s2.id = id) (r : H)
+    (hr : Spec.Mmr.root hf xs = some r) (h2 : s2.validate hf (mmr xs.length) none r = .ok ()) :
+    ∃ s, fromPmmr hf (vecView (Spec.Mmr.hashes hf xs) xs) id false = .ok s ∧
+      segReads hf s (mmr xs.length) none = segReads hf s2 (mmr xs.length) none ∧
+      s.proof.take (proofLen id (mmr xs.length)) = s2.proof.take (proofLen id (mmr xs.length)) := by
+  obtain ⟨s, r', sr, hfrom, hr', _, hsid, _, _, _, hsroot, _, hv, _⟩ := segment_complete hf xs id fit
+  rw [hr] at hr'
+  injection hr' with hr'
+  subst hr'
+  have := segment_sound_any_id hf inj s s2 (by rw [hsid, hid]) xs.length none (by rw [hsid]; exact fit)
+    r sr hsroot hv h2
+  rw [hsid] at this
+  exact ⟨s, hfrom, this⟩
+
+-- non-vacuity: the 11-leaf MMR over free terms (size 19); the final segment (height 2, idx 2:
+-- leaves 8, 9, 10, peaks 17 and 18), a full height-1 and a full height-2 segment: generated,
+-- and accepted against the root
+example : ∀ id ∈ [(⟨2, 2⟩ : Ident), ⟨1, 2⟩, ⟨2, 1⟩, ⟨1, 5⟩, ⟨0, 10⟩, ⟨4, 0⟩],
+    ∃ s r, fromPmmr (Co.termHF Nat)
+        (vecView (Spec.Mmr.hashes (Co.termHF Nat) [10, 11, 12, 13, 14, 15, 16, 17, 18, 19, 20])
+          [10, 11, 12, 13, 14, 15, 16, 17, 18, 19, 20]) id false = .ok s ∧
+      Spec.Mmr.root (Co.termHF Nat) [10, 11, 12, 13, 14, 15, 16, 17, 18, 19, 20] = some r ∧
+      s.validate (Co.termHF Nat) (mmr 11) none r = .ok () := by
+  intro id hid
+  have fit : FitId id 11 := by
+    simp only [List.mem_cons, List.mem_nil_iff, or_false] at hid
+    rcases hid with rfl | rfl | rfl | rfl | rfl | rfl <;> exact ⟨by decide, by decide, by decide⟩
+  obtain ⟨s, r, _, h1, h2, _, _, _, _, _, _, _, h3, _⟩ :=
+    segment_complete (Co.termHF Nat) [10, 11, 12, 13, 14, 15, 16, 17, 18, 19, 20] id fit
+  exact ⟨s, r, h1, h2, h3⟩
+
+/-! ## Completeness with a bitmap (output / rangeproof MMRs: spent, pruned, compacted sources)
+
+`PrunedView hf f N b V` (`Lemmas/SegPruned.lean`) characterises what the `ReadonlyPMMR` of a store
+in a state reachable through its usage protocol answers, together with the bitmap `b` of unspent
+leaf indices (`N < 2^32` leaves): everything on file is genuine; a leaf on file has its data; inner
+positions are read through `get_from_file`; peaks are on file; and a position is off file only
+strictly inside a compacted subtree — if an inner node or one of its children is off file, both
+children are off file and no leaf below the node is marked unspent (`compacted`).  `get_hash` of a
+*leaf* is not constrained (spent leaves are hidden by the leaf set).
+
+Full statement intended (`segment_complete_pruned`): for every such view, every identifier whose
+range intersects the MMR: `∃ s, from_pmmr(id, V, prunable = true) = Ok(s) ∧
+validate(size, Some(bitmap), root) = Ok`.  Proven below for every identifier of **height ≥ 1**
+whose subtree root is **on file** when the segment is full (live, partly compacted, or completely
+spent but not yet compacted below its root) and for the final, not full segment in every prune
+state.  What is left out, and why:
+* *height 0* — the statement is **false** for the code: a single-leaf segment whose leaf and
+  sibling are both spent has no root of its own (`root = Ok(None)`) and carries its data, not its
+  hash, so `first_unpruned_parent` walks up and ends in `MissingHash`; over a real store
+  `SegmentProof::generate` already fails with `MissingHash(sibling)` because `get_hash` hides the
+  spent sibling leaf.  Concretely: the 2-leaf MMR (size 3), both leaves spent, nothing compacted,
+  identifier (height 0, idx 0).  The harness reproduces it on the real code (class
+  `height0-both-unmarked`, compared with the model only).  Heights 0 are never requested
+  (`pibd_params`: 9 / 11), so this is a latent defect, not a live one.
+* *completely compacted full segment* (its last position strictly inside a compacted subtree: the
+  segment is one hash, the first parent on file, and `first_unpruned_parent` walks up checking the
+  bitmap cardinality of every ancestor) — true as far as the correspondence run shows (`leafless`
+  / `ancestor` / `store` runs), the walk-up lemma (`fupLoop` finds the first on-file ancestor
+  because every ancestor below it has no marked leaf, by `compacted`) is not proven here.
+  Soundness of that route is proven: `pruned_parent_covers_only_spent`. -/
+
+/-- **segment_complete_pruned_partial.**  See the comment above for the full statement and the two
+excluded cases. -/
+theorem segment_complete_pruned_partial (hf : HashFn α H) [DecidableEq H] (f : Nat → α) (N : Nat)
+    (b : Nat → Bool) (V : View α H) (pv : PrunedView hf f N b V) (id : Ident) (fit : FitId id N)
+    (hg : 1 ≤ id.height) (hon : FullId id (mmr N) → V.fromFile (lastOf id) ≠ none) :
+    ∃ s r, fromPmmr hf V id true = .ok s ∧ rootOf hf f N = some r ∧ s.id = id ∧
+      s.validate hf (mmr N) (some b) r = .ok () ∧
+      ∀ hlp other left, s.validateWith hf (mmr N) (some b)
+        (if left then hf.node hlp other r else hf.node hlp r other) hlp other left = .ok () :=
+  complete_pruned hf f N b V pv id fit hg hon
+
+/-- what the honest pruned segment's root and first unpruned parent are, for a full segment whose
+subtree root is on file: `Some(committed hash)` iff a leaf below is required (`liveAt`), and in
+either case the first unpruned parent is the committed hash at the segment's last position -/
+theorem pruned_full_segment_root (hf : HashFn α H) [DecidableEq H] (f : Nat → α) (N : Nat)
+    (b : Nat → Bool) (V : View α H) (pv : PrunedView hf f N b V) (id : Ident) (v : FullId id (mmr N))
+    (hg : 1 ≤ id.height) (hon : V.fromFile (lastOf id) ≠ none) :
+    ∃ s, fromPmmr hf V id true = .ok s ∧
+      s.root hf (mmr N) (some b) = .ok (if liveAt (some b) (mmr N) id.height (lastOf id)
+        then some (hAt hf f (lastOf id)) else none) ∧
+      s.firstUnprunedParent hf (mmr N) (some b) = .ok (hAt hf f (lastOf id), 1 + lastOf id) := by
+  obtain ⟨proof, r, h1, _, h3, h4, _, _⟩ := full_complete_pruned pv id v hg hon
+  exact ⟨_, h1, h3, h4⟩
+
+/-- **On lists, for sources whose leaves are spent in any pattern** (`removed`: hidden from
+`get_hash`, still on file) **and, second part, with one compacted sibling pair** `n0 − 1, n0`
+(both unmarked): every segment of height ≥ 1 that intersects the MMR is generated and validates
+against *any* bitmap `b` (resp. any bitmap that does not mark the compacted leaves). -/
+theorem segment_complete_spent_and_compacted (hf : HashFn α H) [DecidableEq H] (xs : List α)
+    (b removed : Nat → Bool) (id : Ident) (fit : FitId id xs.length) (hN : xs.length < 2 ^ 32)
+    (hg : 1 ≤ id.height) :
+    (∃ s r, fromPmmr hf (spentView (Spec.Mmr.hashes hf xs) xs removed) id true = .ok s ∧
+      Spec.Mmr.root hf xs = some r ∧ s.validate hf (mmr xs.length) (some b) r = .ok () ∧
+      ∀ hlp other left, s.validateWith hf (mmr xs.length) (some b)
+        (if left then hf.node hlp other r else hf.node hlp r other) hlp other left = .ok ()) ∧
+    (∀ n0, 1 ≤ trailingOnes n0 → n0 < xs.length → b (n0 - 1) = false → b n0 = false →
+      ∃ s r, fromPmmr hf (compactPair (spentView (Spec.Mmr.hashes hf xs) xs removed) n0) id true = .ok s ∧
+        Spec.Mmr.root hf xs = some r ∧ s.validate hf (mmr xs.length) (some b) r = .ok () ∧
+        ∀ hlp other left, s.validateWith hf (mmr xs.length) (some b)
+          (if left then hf.node hlp other r else hf.node hlp r other) hlp other left = .ok ()) :=
+  complete_pruned_list hf xs b removed id fit hN hg
+
+-- non-vacuity: the 11-leaf MMR, leaves 0 and 1 spent and compacted (positions 0, 1 off file, the
+-- pruned root 2 on file), leaves 4, 6, 7 spent but on file, bitmap = {2, 3, 5, 8, 9, 10}:
+-- (1,0) is represented by the hash of the pruned root alone, (2,0) is partly compacted,
+-- (1,3) is completely spent but not compacted, (2,2) is the final segment, (3,0) spans everything
+example : ∀ id ∈ [(⟨1, 0⟩ : Ident), ⟨2, 0⟩, ⟨1, 3⟩, ⟨2, 2⟩, ⟨3, 0⟩, ⟨1, 5⟩],
+    ∃ s r, fromPmmr (Co.termHF Nat)
+        (compactPair (spentView (Spec.Mmr.hashes (Co.termHF Nat) [10, 11, 12, 13, 14, 15, 16, 17, 18, 19, 20])
+          [10, 11, 12, 13, 14, 15, 16, 17, 18, 19, 20] (fun p => decide (p ∈ [0, 1, 7, 10, 11]))) 1)
+        id true = .ok s ∧
+      Spec.Mmr.root (Co.termHF Nat) [10, 11, 12, 13, 14, 15, 16, 17, 18, 19, 20] = some r ∧
+      s.validate (Co.termHF Nat) (mmr 11) (some fun j => decide (j ∈ [2, 3, 5, 8, 9, 10])) r = .ok () := by
+  intro id hid
+  have fit : FitId id 11 ∧ 1 ≤ id.height := by
+    simp only [List.mem_cons, List.mem_nil_iff, or_false] at hid
+    rcases hid with rfl | rfl | rfl | rfl | rfl | rfl <;>
+      exact ⟨⟨by decide, by decide, by decide⟩, by decide⟩
+  obtain ⟨s, r, h1, h2, h3, _⟩ :=
+    (segment_complete_spent_and_compacted (Co.termHF Nat) [10, 11, 12, 13, 14, 15, 16, 17, 18, 19, 20]
+      (fun j => decide (j ∈ [2, 3, 5, 8, 9, 10])) (fun p => decide (p ∈ [0, 1, 7, 10, 11])) id fit.1
+      (by decide) fit.2).2 1 (by simp [trailingOnes]) (by decide) (by decide) (by decide)
+  exact ⟨s, r, h1, h2, h3⟩
+
+/-! ### The segment-root part alone, relative to an abstract node law (kept: it also covers hash
+vectors that were not built by `push`, e.g. what `PMMR::validate` accepted) -/
 
 /-- **Completeness of the segment root (full, unpruned segment), relative to the node law**:
 if `hsAt` satisfies the MMR node law (leaf hash = hash of the leaf data, parent hash = hash of
 its two children — what `PMMR::validate` checks of the committed MMR) and the segment carries
 the data of every leaf of its range, then `Segment::root` returns the committed hash at the
-segment's last position.  Named gap to `segment_complete`: (a)–(d) above. -/
+segment's last position.  (`segment_complete` discharges the two laws for the vector `push` builds.) -/
 theorem segment_complete_partial (hf : HashFn α H) (s : Segment α H) (size : Nat)
     (hsAt : Nat → H) (dataAt : Nat → α)
     (leafLaw : ∀ q, height q = 0 → hsAt q = hf.leaf q (dataAt q))
